@@ -36,7 +36,10 @@ func DefaultCreateConnection(remote net.Addr, block kcp.BlockCrypt) (net.Conn, e
 }
 
 func (ups *Packet) String() string {
-	return ups.Address.String()
+	// (without the secret)
+	a := ups.Address
+	a.User = nil
+	return a.String()
 }
 
 // Connect will create a stream over packet connection and use the DefaultCreateConnection to do so.
@@ -68,15 +71,18 @@ func (ups *Packet) ConnectPacket(manager cert.TlsConfig, mustSecure bool, connec
 			salt = h.Sum(nil)
 		}
 	}
-	ups.Address.User = nil
+	// The secret stays out of addresses that are resolved and logged - on a copy: the configured address keeps it for the
+	// next connection attempt (after a lost session, or when the list of upstreams is tried again)
+	a := ups.Address
+	a.User = nil
 
-	n, err := ups.Address.Addr()
+	n, err := a.Addr()
 	if err != nil {
 		return errors.WithStack(err)
 	}
 
 	if secure {
-		log.Debugf("Starting AES-encrypted packet client to %s", ups.String())
+		log.Debugf("Starting AES-encrypted packet client to %s", a.String())
 
 		key := pbkdf2.Key(pass, salt, 1024, 32, sha256.New) // AES-256: the cipher takes 16, 24 or 32 octets
 		if b, err := kcp.NewAESBlockCrypt(key); err != nil {
@@ -85,15 +91,15 @@ func (ups *Packet) ConnectPacket(manager cert.TlsConfig, mustSecure bool, connec
 			block = b
 		}
 	} else {
-		log.Debugf("Starting plain packet client to %s", ups.String())
+		log.Debugf("Starting plain packet client to %s", a.String())
 	}
 
 	c, err := connectFunc(n, block)
 	if err != nil {
-		return errors.Wrapf(err, "Could not connect to %v", ups.Address)
+		return errors.Wrapf(err, "Could not connect to %v", a)
 	}
 
-	log.Debugf("[Client] Socket upstream connection established to %v", ups.Address.String())
+	log.Debugf("[Client] Socket upstream connection established to %v", a.String())
 
 	// Even if the packets are encrypted using AES symmetric cyper, let the server know we're open to StartTLS
 	// communication. Why? Because:
@@ -103,12 +109,12 @@ func (ups *Packet) ConnectPacket(manager cert.TlsConfig, mustSecure bool, connec
 	if err != nil {
 		return errors.Wrapf(err, "Could not open connection")
 	} else if mustSecure && !cc.Secure() {
-		return errors.Errorf("Could not establish a secure connection to %v", ups.Address)
+		return errors.Errorf("Could not establish a secure connection to %v", a)
 	} else {
 		stream = cc
 	}
 
-	ups.Connection = streams.NewNamedConnection(streams.NewNamedConnection(stream, ups.Address.String()), "socket")
+	ups.Connection = streams.NewNamedConnection(streams.NewNamedConnection(stream, a.String()), "socket")
 
 	return nil
 }
